@@ -141,6 +141,63 @@ add('C14', 'netsim', 'exploration',
     'transport fault on the k-th Pong write.', TRUST,
     'DESIGN.md section 6 C14')
 
+add('C13', 'netsim', 'fault_enumeration',
+    'deterministic simulation: abandonment at every event index x 4 '
+    'mechanisms of 16 base scenarios, then seeded abandonment after faults',
+    'Complete sweep of (event index, mechanism) for each base scenario; the '
+    'consumer is a helper frame like the idiomatic for-loop so nothing in '
+    'the harness pins the generator; afterwards garbage is collected with '
+    'the WebSocket kept alive and every fake socket must have been close()d '
+    'by the library (not merely dropped) and no poll object may survive.',
+    TRUST, 'DESIGN.md section 6 C13')
+
+add('C15', 'netsim', 'exploration',
+    'deterministic simulation: interval rules on a virtual clock over '
+    'seeded timer configurations and arrival histories',
+    'Processing takes zero virtual time, so the rules are exact up to float '
+    'rounding (2e-5 s) plus explicitly injected wake-up latency; seeded '
+    '(poll, ping_rate, ping_timeout, close_timeout) incl. 0/None and '
+    'inexact fractions x Pong / data / close-reply arrival histories.', TRUST,
+    'DESIGN.md section 6 C15')
+
+add('C16', 'netsim', 'exploration',
+    'deterministic simulation: real persist() over seeded outcome '
+    'sequences with owned random() and a virtual exit event',
+    'Outcome sequences of 3-40 attempts, waits from a grid incl. (0,0) and '
+    '(1,1), draws biased to 0 and 1-2^-53 so both bounds are tight, exit at '
+    'a seeded back-off; structure, pass-through (teed at connect()), '
+    'arguments and delay formula are checked.', TRUST,
+    'DESIGN.md section 6 C16')
+
+add('C17', 'netsim', 'exploration',
+    'deterministic simulation: differential run of a reused WebSocket '
+    'object against a fresh one on the same final script',
+    '15 kinds of abnormal endings of the earlier connections x a final '
+    'script sensitive to leftovers; events, relative virtual times, request '
+    'and unmasked frames must equal those of a fresh object (run first), '
+    'which must itself match the expected-by-construction events.', TRUST,
+    'DESIGN.md section 6 C17')
+
+add('C18', 'netsim', 'exploration',
+    'deterministic simulation: arrival bursts on plain and TLS-model '
+    'transports; event time must equal byte availability time',
+    'Bursts up to 1 MiB / 5000 frames, TLS records (one-record and '
+    'read-ahead pending() models), short reads, bursts ending in payload-'
+    'less frames; zero processing time makes any stall visible as a '
+    'difference between availability time and yield time.  The TLS layer is '
+    'a model; the property\'s real-loopback clause is not covered.', TRUST,
+    'DESIGN.md section 6 C18 and section 10')
+
+add('C19', 'netsim', 'exploration',
+    'deterministic simulation: proxy replies x segmentations x faults at '
+    'each proxy socket call x URL and mapping shapes, ordered byte log',
+    'Seeded proxies mappings (incl. environment), proxy URL shapes, ws/wss '
+    'targets, replies (200 variants, other statuses, other 2xx, garbage, '
+    'unterminated, stalled past 30 s, oversize, empty) and one fault per '
+    'run at connect / CONNECT write / each recv / TLS wrap; the oracle '
+    'reads the ordered log of the proxy socket.', TRUST,
+    'DESIGN.md section 6 C19')
+
 ORDER = ['C01', 'C02', 'C03', 'C04', 'C05', 'C06', 'C07', 'C08', 'C09', 'C10',
          'C11', 'C12', 'C13', 'C14', 'C15', 'C16', 'C17', 'C18', 'C19']
 
